@@ -26,12 +26,28 @@ ASSUMPTIONS = [
 
 ALPHA = ['a', '\n', '\r', ' ']
 OFFSETS = [(lno, fco, co) for lno in (None, 1, 0, 10) for fco in (0, 3) for co in (0, 2)]
+# 'omit' = keyword not passed at all, None = passed as None: both mean the documented default
+OFFSETS += [(None, 'omit', 'omit'), (None, None, None), (10, 'omit', 2), (0, 3, 'omit')]
 ERR_ALPHA = ['a', '\n', '{', '}', '$', '\\textbf', '\\end{x}']
 ERR_OFFSETS = [(None, 0, 0), (10, 3, 2), (0, 0, 5)]
 NSHARDS = 16
 
 
+def _kw(lno, fco, co, walker):
+    kw = {}
+    if lno is not None or walker:
+        if lno != 'omit':
+            kw['line_number_offset'] = lno
+    if fco != 'omit':
+        kw['first_line_column_offset'] = fco
+    if co != 'omit':
+        kw['column_offset'] = co
+    return kw
+
+
 def model(s, pos, lno, fco, co):
+    fco = 0 if fco in (None, 'omit') else fco
+    co = 0 if co in (None, 'omit') else co
     first = 1 if lno is None else lno
     idx = s.count('\n', 0, pos)
     start = s.rfind('\n', 0, pos) + 1
@@ -46,7 +62,10 @@ def plan(tier, seed):
             'bounds': {'max_len': L, 'alphabet': ALPHA, 'offset_sets': len(OFFSETS),
                        'error_soup_tokens': EL, 'error_alphabet': ERR_ALPHA},
             'required_classes': ['pos:at-newline', 'pos:eof', 'pos:empty-string',
-                                 'pos:after-newline', 'err:multi-line']}
+                                 'pos:after-newline', 'err:multi-line',
+                                 'err-entry:get_latex_braced_group',
+                                 'err-entry:parse_content:delimited-group',
+                                 'err-entry:parse_content:general', 'err:open-context-located']}
 
 
 def posclass(s, pos):
@@ -67,12 +86,11 @@ def check_positions(s, res, positions=None, offsets=None):
     for off in (offsets or OFFSETS):
         lno, fco, co = off
         try:
-            kw = {}
-            if lno is not None:
-                kw['line_number_offset'] = lno
-            calc = LineNumbersCalculator(s, first_line_column_offset=fco, column_offset=co, **kw)
-            w = LatexWalker(s, line_number_offset=lno, first_line_column_offset=fco,
-                            column_offset=co)
+            ckw = _kw(lno, fco, co, False)
+            if ckw.get('first_line_column_offset', 0) is None or ckw.get('column_offset', 0) is None:
+                ckw = {}       # the calculator itself documents integers only; None is walker API
+            calc = LineNumbersCalculator(s, **ckw)
+            w = LatexWalker(s, **_kw(lno, fco, co, True))
         except Exception as e:
             res.fail(exc_key(e), exc_detail(e), {'kind': 'pos', 's': s, 'pos': 0, 'off': list(off)})
             continue
@@ -86,6 +104,7 @@ def check_positions(s, res, positions=None, offsets=None):
                 gd = calc.pos_to_lineno_colno(pos, as_dict=True)
                 gw = w.pos_to_lineno_colno(pos)
                 gwd = w.pos_to_lineno_colno(pos, as_dict=True)
+                fmt = w.format_pos(pos)
             except Exception as e:
                 res.fail(exc_key(e), exc_detail(e), case)
                 continue
@@ -101,7 +120,100 @@ def check_positions(s, res, positions=None, offsets=None):
                          case)
 
 
+            if fmt != '@ (line %d, col %d)' % exp:
+                res.fail('c20:walker-format_pos:%s' % pc,
+                         'LatexWalker.format_pos(%d) = %r, model %r' % (pos, fmt, exp), case)
+
+
+def entry_points(s):
+    """(name, start position, callable(walker)) -- the ways a strict parse can be started; each may
+    raise a parse error whose location is filled in by a different code path"""
+    from pylatexenc.latexnodes import parsers as P
+    eps = [('parse_content:general', 0, lambda w: w.parse_content(P.LatexGeneralNodesParser()))]
+    for p in sorted(set([0, 1, s.find('\n') + 1 if '\n' in s else 0, max(0, len(s) - 1)])):
+        if p > len(s):
+            continue
+        eps += [
+            ('get_latex_nodes', p, lambda w, p=p: w.get_latex_nodes(pos=p)),
+            ('get_latex_expression', p, lambda w, p=p: w.get_latex_expression(p)),
+            ('get_latex_maybe_optional_arg', p, lambda w, p=p: w.get_latex_maybe_optional_arg(p)),
+            ('get_latex_braced_group', p, lambda w, p=p: w.get_latex_braced_group(p)),
+            ('get_latex_environment', p, lambda w, p=p: w.get_latex_environment(p)),
+            ('parse_content:delimited-group', p, lambda w, p=p: w.parse_content(
+                P.LatexDelimitedGroupParser(delimiters=('{', '}')),
+                token_reader=w.make_token_reader(pos=p))),
+            ('parse_content:expression', p, lambda w, p=p: w.parse_content(
+                P.LatexExpressionParser(), token_reader=w.make_token_reader(pos=p))),
+            ('parse_content:math', p, lambda w, p=p: w.parse_content(
+                P.LatexMathParser(math_mode_delimiters='$'),
+                token_reader=w.make_token_reader(pos=p))),
+        ]
+    return eps
+
+
 def check_error(s, off, res):
+    from pylatexenc.latexwalker import LatexWalker, LatexWalkerParseError
+    lno, fco, co = off
+    for name, start, fn in entry_points(s):
+        res.case()
+        case = {'kind': 'err', 's': s, 'off': list(off), 'entry': name, 'start': start}
+        w = LatexWalker(s, tolerant_parsing=False, **_kw(lno, fco, co, True))
+        try:
+            import warnings
+            with warnings.catch_warnings():
+                warnings.simplefilter('ignore')
+                fn(w)
+            continue
+        except LatexWalkerParseError as e:
+            err = e
+        except Exception:
+            continue    # foreign exception types are C05's / C16's business, not C20's
+        pos = getattr(err, 'pos', None)
+        if not isinstance(pos, int) or not (0 <= pos <= len(s)):
+            continue    # location range is C05's business
+        exp = model(s, pos, lno, fco, co)
+        multi = '\n' in s
+        res.label('err:multi-line' if multi else 'err:single-line', case if multi else None)
+        res.label('err-entry:' + name, case if multi else None)
+        res.label('err-type:' + type(err).__name__)
+        if multi:
+            res.nontriv_distinct()
+        if err.lineno is None and err.colno is None:
+            res.fail('c20:error-without-linecol:' + name,
+                     'error at pos %r carries no line / column' % (pos,), case)
+            continue
+        if (err.lineno, err.colno) != exp:
+            res.fail('c20:error-linecol:' + name, 'error at pos %r reports line %r col %r, model '
+                     'says %r' % (pos, err.lineno, err.colno, exp), case)
+            continue
+        want = '@ (line %d, col %d)' % exp
+        if want not in str(err):
+            res.fail('c20:error-report-text:' + name,
+                     'str(error) = %r does not contain %r' % (str(err)[:200], want), case)
+        # the other positions an error report names (still-open constructs)
+        for ctx in (getattr(err, 'open_contexts', None) or []):
+            try:
+                what, cpos, clno, ccol = ctx
+            except Exception:
+                continue
+            if isinstance(cpos, int) and 0 <= cpos <= len(s) and clno is not None:
+                res.label('err:open-context-located')
+                if (clno, ccol) != model(s, cpos, lno, fco, co):
+                    res.fail('c20:open-context-linecol:' + name,
+                             'open block %r at pos %r reported at line %r col %r, model %r'
+                             % (what, cpos, clno, ccol, model(s, cpos, lno, fco, co)), case)
+        # the walker's own mapping after the parse (cached calculator)
+        try:
+            after = tuple(w.pos_to_lineno_colno(pos))
+        except Exception as e:
+            res.fail(exc_key(e), exc_detail(e), case)
+            continue
+        if after != exp:
+            res.fail('c20:walker-after-parse', 'pos_to_lineno_colno(%d) after the parse = %r, '
+                     'model %r' % (pos, after, exp), case)
+
+
+def _old_check_error(s, off, res):
     from pylatexenc.latexwalker import LatexWalker, LatexWalkerParseError
     from pylatexenc.latexnodes.parsers import LatexGeneralNodesParser
     lno, fco, co = off
@@ -151,4 +263,4 @@ def check_case(case, res):
     if case['kind'] == 'pos':
         check_positions(case['s'], res, positions=[case['pos']], offsets=[tuple(case['off'])])
     else:
-        check_error(case['s'], tuple(case['off']), res)
+        check_error(case['s'], tuple(case['off']), res)    # all entry points
